@@ -134,8 +134,7 @@ class Emitter(object):
             elif self.comments and c < 0.97:
                 if not ws and self.prev not in self.SAFE_GLUE:
                     ws += ' '        # "/" + "/* */" would read as a line comment
-                ws += r.choice(('/* c */', '/* multi\nline * comment */', '/**/', '/* a ; b */', '/*** x ***/',
-                                '/* // */', '/* "s" */'))
+                ws += self.comment()
                 if not can_glue or r.random() < 0.5:
                     ws += ' '
             elif self.comments:
@@ -147,6 +146,20 @@ class Emitter(object):
         if not ws.strip(' \t\r\n') and not ws:
             ws = ' '
         self._write(ws)
+
+    def comment(self):
+        '''a block comment: fixed shapes and random bodies over the characters the lexer rule loops over'''
+        r = self.rng
+        if r.random() < 0.5:
+            return r.choice(('/* c */', '/* multi\nline * comment */', '/**/', '/* a ; b */', '/*** x ***/',
+                             '/* // */', '/* "s" */', '/** doc **/', '/* x **/', '/****/', '/***/',
+                             '/****** box ******/', '/* a **** b */', '/* / * / */', '/*/ x */', '/* *\n * y\n **/'))
+        body = ''.join(r.choice(('*', '*', '/', ' ', 'a', '\n', ';', '"', "'", 'end if')) for _ in range(r.randint(0, 12)))
+        while '*/' in body:
+            body = body.replace('*/', '* /')
+        if body.startswith('/') and False:
+            body = ' ' + body
+        return '/*' + body + '*/'
 
     def _tok(self, text, kind):
         self._gap(text)
